@@ -124,8 +124,42 @@ theorem malformed_iff (id : Identity) :
 
 /-! ### the model computes the specification -/
 
-theorem run_eq_spec (i : Input) : (run i).pass = spec i := by
-  simp only [run, verifyIdentities_eq leafIndex_zero, spec_eq_specOf]
+theorem run_native (i : Input) (h : nativeCheck i = true) :
+    (run i).pass = verifyIdentities i.identities i.chain := by
+  simp [run, h]
+
+theorem run_eq_spec (i : Input) (h : nativeCheck i = true) : (run i).pass = spec i := by
+  simp only [run_native i h, verifyIdentities_eq leafIndex_zero, spec_eq_specOf]
+
+/-- **plugins**: a signature that names no plugin, or a plugin that does not declare the
+trusted-identity capability (e.g. revocation only), leaves the identity check native: the
+plugin and its answers do not matter. -/
+theorem plugin_without_identity_capability_does_not_matter (i : Input)
+    (h : ∀ p, i.plugin = some p → Capability.trustedIdentity ∉ p.capabilities) :
+    (run i).pass = verifyIdentities i.identities i.chain := by
+  apply run_native
+  unfold nativeCheck
+  cases hp : i.plugin with
+  | none => rfl
+  | some p =>
+    have := h p hp
+    simpa using this
+
+theorem revocation_only_plugin_is_native (i : Input) (b : Bool)
+    (h : i.plugin = some { capabilities := [.revocationCheck], identitySuccess := b }) :
+    (run i).pass = verifyIdentities i.identities i.chain := by
+  apply plugin_without_identity_capability_does_not_matter
+  intro p hp
+  rw [h] at hp
+  simp only [Option.some.injEq] at hp
+  rw [← hp]
+  simp
+
+/-- ... and a plugin that declares it decides -/
+theorem plugin_with_identity_capability_decides (i : Input) (p : Plugin) (h : i.plugin = some p)
+    (hc : Capability.trustedIdentity ∈ p.capabilities) : (run i).pass = p.identitySuccess := by
+  have : nativeCheck i = false := by simp [nativeCheck, h, hc]
+  simp [run, this, pluginVerdict, h]
 
 theorem mem_all_contains {l attrs : List Attr} :
     l.all (fun a => attrs.contains a) = true ↔ ∀ a ∈ l, a ∈ attrs := by
@@ -461,10 +495,20 @@ theorem anyX509_of_anyWithinLeaf (i : Input) (h : anyWithinLeaf i = true) : anyX
   obtain ⟨val, hc, _, _⟩ := (usable_iff id).1 hw.1
   simp [isX509, x509Value, hc]
 
-/-- **C04, the property relative to the rendered subject**: every core clause is true of the
-model's behaviour, for all identity lists and chains, without any assumption. -/
-theorem model_holds_core (i : Input) : (coreClauses i (run i)).holds = true := by
-  have hrun := run_eq_spec i
+theorem holds_guarded (g : Bool) (cs : Clauses) : (guarded g cs).holds = (!g || cs.holds) := by
+  induction cs with
+  | nil => cases g <;> rfl
+  | cons c cs ih =>
+    obtain ⟨n, b⟩ := c
+    simp only [guarded, List.map_cons] at ih ⊢
+    rw [Clauses.holds_cons, Clauses.holds_cons, ih]
+    cases g <;> cases b <;> simp
+
+/-- **C04, the property relative to the rendered subject**: whenever the check is native, every
+core clause is true of the model's behaviour, for all identity lists and chains, without any
+assumption. -/
+theorem model_holds_core (i : Input) (hn : nativeCheck i = true) : (coreClauses i (run i)).holds = true := by
+  have hrun := run_eq_spec i hn
   have hax := anyX509_of_anyWithinLeaf i
   unfold coreClauses
   simp only [Clauses.holds_cons, Clauses.holds_nil, Bool.and_true, hrun]
@@ -479,12 +523,9 @@ theorem model_holds_core (i : Input) : (coreClauses i (run i)).holds = true := b
   · rw [hax rfl]
     cases w <;> cases m <;> cases lv <;> rfl
 
-/-- **C04, the whole property**: every clause of `Holds` is true of the model's behaviour, for
-all identity lists and chains, under the (decidable, per-case checked) assumption `wf` on the
-trusted rendering: an interpretable leaf subject shows only attributes the certificate was
-minted with. `wf` is itself the last clause, so the driver evaluates it on every case. -/
-theorem model_holds (i : Input) (hwf : wf i = true) : Holds i (run i) = true := by
-  have hrun := run_eq_spec i
+theorem model_holds_minted (i : Input) (hn : nativeCheck i = true) (hwf : wf i = true) :
+    (mintedClauses i (run i)).holds = true := by
+  have hrun := run_eq_spec i hn
   have hmint : anyWithinLeaf i = true → i.identities.any (fun id => within id (mintedAttrs i)) = true := by
     intro h
     simp only [anyWithinLeaf, List.any_eq_true] at h ⊢
@@ -497,10 +538,8 @@ theorem model_holds (i : Input) (hwf : wf i = true) : Holds i (run i) = true := 
     intro a ha
     simp only [wf] at hwf
     exact mem_all_contains.1 hwf a (hw2 a ha)
-  unfold Holds clauses
-  rw [holds_append, model_holds_core i, Bool.true_and]
   unfold mintedClauses
-  simp only [Clauses.holds_cons, Clauses.holds_nil, Bool.and_true, hrun, hwf]
+  simp only [Clauses.holds_cons, Clauses.holds_nil, Bool.and_true, hrun]
   cases hs : spec i with
   | false => rfl
   | true =>
@@ -512,6 +551,27 @@ theorem model_holds (i : Input) (hwf : wf i = true) : Holds i (run i) = true := 
         exact hs.2
       rw [hmint this]
       rfl
+
+theorem model_holds_plugin (i : Input) : (pluginClauses i (run i)).holds = true := by
+  unfold pluginClauses
+  simp only [Clauses.holds_cons, Clauses.holds_nil, Bool.and_true]
+  cases hn : nativeCheck i with
+  | true => rfl
+  | false => simp [run, hn]
+
+/-- **C04, the whole property**: every clause of `Holds` is true of the model's behaviour, for
+all identity lists, chains and plugins, under the (decidable, per-case checked) assumption `wf`
+on the trusted rendering: an interpretable leaf subject shows only attributes the certificate
+was minted with. `wf` is itself the last clause, so the driver evaluates it on every case. -/
+theorem model_holds (i : Input) (hwf : wf i = true) : Holds i (run i) = true := by
+  unfold Holds clauses
+  rw [holds_append, holds_append, holds_guarded, holds_append, model_holds_plugin]
+  have ha : (assumptionClauses i).holds = true := by
+    simp [assumptionClauses, Clauses.holds_cons, Clauses.holds_nil, hwf]
+  rw [ha]
+  cases hn : nativeCheck i with
+  | false => rfl
+  | true => rw [model_holds_core i hn, model_holds_minted i hn hwf]; rfl
 
 /-! ### non-vacuity -/
 
@@ -541,29 +601,36 @@ def exId (v : Text) (rs : List (List Attr)) : Identity := { raw := pfx ++ v, rdn
 def minted : List Attr := [(CN, leafCN), (O, org), (ST, wa), (C, us)]
 
 -- a permuted subset of the leaf subject written with the S alias passes
-example : run { identities := [exId ['a'] [[(C, us)], [(S, wa)], [(O, org)]]], chain := exChain, minted := minted }
+example : run { identities := [exId ['a'] [[(C, us)], [(S, wa)], [(O, org)]]], chain := exChain, minted := minted, plugin := none }
     = { pass := true } := by decide
 -- the root's subject does not
-example : run { identities := [exId ['a'] [[(CN, rootCN)], [(O, org)], [(ST, wa)], [(C, us)]]], chain := exChain, minted := minted }
+example : run { identities := [exId ['a'] [[(CN, rootCN)], [(O, org)], [(ST, wa)], [(C, us)]]], chain := exChain, minted := minted, plugin := none }
     = { pass := false } := by decide
 -- a superset of the leaf subject does not
-example : run { identities := [exId ['a'] [[(CN, leafCN)], [(O, org)], [(ST, wa)], [(C, us)], [(['L'], [])]]], chain := exChain, minted := minted }
+example : run { identities := [exId ['a'] [[(CN, leafCN)], [(O, org)], [(ST, wa)], [(C, us)], [(['L'], [])]]], chain := exChain, minted := minted, plugin := none }
     = { pass := false } := by decide
 -- the lone wildcard does
-example : run { identities := [{ raw := ['*'], rdns := none }], chain := exChain, minted := minted }
+example : run { identities := [{ raw := ['*'], rdns := none }], chain := exChain, minted := minted, plugin := none }
     = { pass := true } := by decide
 -- a list without any x509.subject identity does not
-example : run { identities := [{ raw := ['a', ':', 'b'], rdns := none }], chain := exChain, minted := minted }
+example : run { identities := [{ raw := ['a', ':', 'b'], rdns := none }], chain := exChain, minted := minted, plugin := none }
     = { pass := false } := by decide
 -- `Holds` rejects a wrong observation: passing on the strength of the root's subject
-example : Holds { identities := [exId ['a'] [[(CN, rootCN)], [(O, org)], [(ST, wa)], [(C, us)]]], chain := exChain, minted := minted }
+example : Holds { identities := [exId ['a'] [[(CN, rootCN)], [(O, org)], [(ST, wa)], [(C, us)]]], chain := exChain, minted := minted, plugin := none }
     { pass := true } = false := by decide
 -- ... and failing although a listed identity is within the leaf subject
-example : Holds { identities := [exId ['a'] [[(C, us)], [(ST, wa)], [(O, org)]]], chain := exChain, minted := minted }
+example : Holds { identities := [exId ['a'] [[(C, us)], [(ST, wa)], [(O, org)]]], chain := exChain, minted := minted, plugin := none }
     { pass := false } = false := by decide
-example : Holds { identities := [exId ['a'] [[(C, us)], [(ST, wa)], [(O, org)]]], chain := exChain, minted := minted }
+example : Holds { identities := [exId ['a'] [[(C, us)], [(ST, wa)], [(O, org)]]], chain := exChain, minted := minted, plugin := none }
     { pass := true } = true := by decide
-example : wf { identities := [], chain := exChain, minted := minted } = true := by decide
+example : wf { identities := [], chain := exChain, minted := minted, plugin := none } = true := by decide
+-- a revocation-only plugin changes nothing: the root's subject still does not pass ...
+example : run { identities := [exId ['a'] [[(CN, rootCN)], [(O, org)], [(ST, wa)], [(C, us)]]], chain := exChain, minted := minted, plugin := some { capabilities := [.revocationCheck], identitySuccess := true } } = { pass := false } := by decide
+-- ... and `Holds` rejects an implementation that lets it pass
+example : Holds { identities := [exId ['a'] [[(CN, rootCN)], [(O, org)], [(ST, wa)], [(C, us)]]], chain := exChain, minted := minted, plugin := some { capabilities := [.revocationCheck], identitySuccess := true } } { pass := true } = false := by decide
+-- a plugin owning the trusted-identity capability decides
+example : run { identities := [exId ['a'] [[(CN, rootCN)], [(O, org)], [(ST, wa)], [(C, us)]]], chain := exChain, minted := minted, plugin := some { capabilities := [.trustedIdentity, .revocationCheck], identitySuccess := true } } = { pass := true } := by decide
+example : Holds { identities := [{ raw := ['*'], rdns := none }], chain := exChain, minted := minted, plugin := some { capabilities := [.trustedIdentity], identitySuccess := false } } { pass := true } = false := by decide
 
 end examples
 
